@@ -567,7 +567,21 @@ func valueBufferRewoundOnlyByReset(e *Env, rule string) {
 				}
 				n++
 				name := core.FnName(f)
-				if name != "message/pool.Message.Reset" && !strings.HasPrefix(name, "message/pool.NewMessage") {
+				isOwner := func(nm string) bool {
+					return nm == "message/pool.Message.Reset" || strings.HasPrefix(nm, "message/pool.NewMessage")
+				}
+				okSite := isOwner(name)
+				if !okSite && core.IsAbsorbed(f) {
+					// a step of Reset / NewMessage split out into an unexported helper that nothing else calls
+					roots := core.RootsOf(f)
+					okSite = len(roots) > 0
+					for _, r := range roots {
+						if !isOwner(core.FnName(r)) {
+							okSite = false
+						}
+					}
+				}
+				if !okSite {
 					bad = append(bad, name+" at "+e.pos(st))
 				}
 			}
@@ -887,13 +901,30 @@ func scratchBuffersDisjoint(e *Env, rule string) {
 		n++
 		v := core.Resolve(st.Val)
 		construct := q + ":" + fl + " own-allocation"
+		// a buffer made by a small constructor helper is a fresh allocation per CALL of the helper
+		var site ssa.Value
+		if c, isC := core.Unwrap(st.Val).(*ssa.Call); isC && v != ssa.Value(c) {
+			site = c
+		}
+		key := func(alloc ssa.Value) ssa.Value {
+			if site != nil {
+				return site
+			}
+			return alloc
+		}
+		if ld, isLd := v.(*ssa.UnOp); isLd && ld.Op == token.MUL {
+			if _, fl2, isF2 := core.FieldOf(ld.X); isF2 && fl2 == "origValueBuffer" && fl == "valueBuffer" {
+				e.R.Ok(rule, construct, e.pos(st), "the value buffer starts as its own original (the same buffer by design)")
+				return
+			}
+		}
 		switch x := v.(type) {
 		case *ssa.MakeSlice:
-			allocs[x] = append(allocs[x], fl)
+			allocs[key(x)] = append(allocs[key(x)], fl)
 			e.R.Ok(rule, construct, e.pos(st), "a fresh make()")
 		case *ssa.Slice:
 			if a, isAlloc := x.X.(*ssa.Alloc); isAlloc && a.Heap && x.Low == nil && wholeArray(a, x.High) {
-				allocs[a] = append(allocs[a], fl)
+				allocs[key(a)] = append(allocs[key(a)], fl)
 				e.R.Ok(rule, construct, e.pos(st), "a fresh make() of constant size")
 			} else if x.Max != nil {
 				e.R.Ok(rule, construct, e.pos(st), "a capacity-limited slice (growing it re-allocates)")
